@@ -176,7 +176,29 @@ def refuses_duplicates(tree: ast.Module) -> bool:
     raise Unsupported("parallelise has no `if cache is not None:` block")
 
 
-def render(mode: str, scheme: str = "plainStr", refuses: bool = False, tmp=None) -> str:
+def refuses_shared_names(tree: ast.Module) -> bool:
+    """inside `if cache is not None:`: `N = [cache.name_fn(k) for …]` and a raise when `len(set(N)) != len(N)` — keys that are
+    not equal but are written to the same file are refused, too"""
+    fn = next((n for n in tree.body if isinstance(n, ast.FunctionDef) and n.name == "parallelise"), None)
+    if fn is None:
+        raise Unsupported("parallelise not found")
+    for st in fn.body:
+        if isinstance(st, ast.If) and ast.unparse(st.test) == "cache is not None":
+            lists = set()
+            for x in st.body:
+                if (isinstance(x, ast.Assign) and len(x.targets) == 1 and isinstance(x.targets[0], ast.Name)
+                        and isinstance(x.value, ast.ListComp) and len(x.value.generators) == 1 and not x.value.generators[0].ifs
+                        and isinstance(x.value.elt, ast.Call) and ast.unparse(x.value.elt.func) == "cache.name_fn"
+                        and len(x.value.elt.args) == 1):
+                    lists.add(x.targets[0].id)
+                elif (isinstance(x, ast.If) and any(isinstance(y, ast.Raise) for y in x.body)
+                      and any(ast.unparse(x.test) == f"len(set({t})) != len({t})" for t in lists)):
+                    return True
+            return False
+    raise Unsupported("parallelise has no `if cache is not None:` block")
+
+
+def render(mode: str, scheme: str = "plainStr", refuses: bool = False, tmp=None, names: bool = False) -> str:
     sep, suffix = tmp if tmp is not None else ([], [])
     doc = {
         "direct": "open('wb') on the final path, pickle.dump",
@@ -192,6 +214,8 @@ def render(mode: str, scheme: str = "plainStr", refuses: bool = False, tmp=None)
         f"def nameScheme : Mxl.C19.NameScheme := .{scheme}\n"
         "/-- `parallelise` raises when a cache is used with repeated keys -/\n"
         f"def refusesDuplicateKeys : Bool := {'true' if refuses else 'false'}\n"
+        "/-- `parallelise` also raises when two keys are written to the same file NAME (keys that are not equal, e.g. two NaN) -/\n"
+        f"def refusesSharedNames : Bool := {'true' if names else 'false'}\n"
         "/-- constant parts of the temporary sibling's name `f\"{file.name}<sep>{os.getpid()}<suffix>\"` (bytes) -/\n"
         f"def tmpSep : List Nat := {sep}\n"
         f"def tmpSuffix : List Nat := {suffix}\n"
@@ -215,6 +239,7 @@ def generate(repo: Path, outdir: Path) -> None:
         tree = ast.parse(src)
         scheme, refuses = name_scheme(tree), refuses_duplicates(tree)
         tmp = tmp_parts(src)
+        names = refuses_shared_names(tree)
     except Exception as e:
         # never leave a stale table behind: the dependent theorems must stop elaborating
         write_if_changed(out, "-- GENERATED by translate/c19.py: UNSUPPORTED source shape\n"
@@ -224,9 +249,10 @@ def generate(repo: Path, outdir: Path) -> None:
                               "def nameScheme : Mxl.C19.NameScheme := .plainStr\n"
                               "def refusesDuplicateKeys : Bool := false\n"
                               "def tmpSep : List Nat := []\ndef tmpSuffix : List Nat := []\n"
+                              "def refusesSharedNames : Bool := false\n"
                               "def unsupported : Unit := ()\nend Mxl.C19.Gen\n")
         raise
-    write_if_changed(out, render(mode, scheme, refuses, tmp))
+    write_if_changed(out, render(mode, scheme, refuses, tmp, names))
 
 
 if __name__ == "__main__":
